@@ -36,6 +36,7 @@ type GovSpec struct {
 	LastClaim  int64 `json:"lastclaim,omitempty"` // unix nanos; 0 = keep current
 	KeepClock  bool  `json:"keepclock,omitempty"`
 	NoValidate bool  `json:"novalidate,omitempty"` // legacy content: skip ValidateBasic (v1 MsgExecLegacyContent path)
+	Boundary   bool  `json:"boundary,omitempty"`   // scripted boundary value of the asset predicate (classification only)
 }
 
 type Step struct {
